@@ -196,6 +196,7 @@ func cmdCheck(args []string) int {
 		opt.TimeoutMs = 60000
 	}
 	var results []*UnitResult
+	var boundaryCut []string
 	calleeOf := map[*Unit]bool{}
 	for len(todo) > 0 {
 		u := todo[0]
@@ -215,7 +216,9 @@ func cmdCheck(args []string) int {
 			}
 			os.WriteFile(dd+"/"+sanitize(u.Name)+".vc", []byte(b.String()), 0o644)
 		}
-		if r.Ex != nil {
+		if r.Ex != nil && u.C.Boundary && !unitServes(u, prop) {
+			boundaryCut = append(boundaryCut, u.Name)
+		} else if r.Ex != nil {
 			for c := range r.Ex.calledContracts {
 				if cu, ok := byFn[c]; ok {
 					calleeOf[cu] = true
@@ -440,6 +443,7 @@ func cmdCheck(args []string) int {
 		"known_findings_matched":   matched,
 		"samples":                  samples,
 		"load_secs":                round2(loadS),
+		"closure_not_descended_below_boundary_units": boundaryCut,
 		"assumed_contracts_sampled_against_the_real_function": conform,
 		"failing_obligations_of_other_properties_in_shared_units": otherFail,
 		"obligations_needing_the_longer_second_attempt":           slow,
